@@ -51,7 +51,7 @@ func reg(p *Prop) {
 type E = []func(*core.Ctx)
 
 func init() {
-	for _, id := range []string{"C08", "C10", "C19"} {
+	for _, id := range []string{"C10", "C19"} {
 		NotYet[id] = "engine for this property is designed (DESIGN.md section 4) but not yet armed in this commit; not claimed until its check runs clean on the pinned tree"
 	}
 
@@ -314,5 +314,26 @@ func init() {
 			{Rule: "PURE", Min: 1000, Why: "read-only entry points"},
 		},
 		Explanation: "PURE (no-write argument); see level text.",
+	})
+
+	reg(&Prop{
+		ID:        "C08",
+		Technique: "canonicalisation of every accessor arm / view method (positional renaming, temporary substitution that never duplicates an allocation, identity-conversion removal) compared with the per-kind forms derived from the descriptor; presence predicates and effect analysis for the read side",
+		DesignRef: "DESIGN.md 3.11, 4 C08",
+		LevelText: "A generated message's whole state is its Go struct and every accessor is a function of (struct state, arguments) only (PURE: read accessors write nothing), so per-operation conformance on all states gives conformance on all histories. For every field of every generated type, each arm of Has, Clear, Get, Set, Mutable, NewField (exactly one arm per schema field; unknown descriptors panic), each block of Range (each field exactly once, under its presence predicate, with its own descriptor variable and the value Get returns; a false callback stops), each arm of WhichOneof and every method of every list/map view is canonicalised and must equal the form the protoreflect contract prescribes for the field's kind and shape: value constructor / unwrapper / conversion of the kind, zero value, oneof wrapper asserted and constructed, view backed by a pointer to the field (write-through), allocation on Mutable, detached values from NewField/NewElement/NewValue. Open finding F9: Clear of a oneof member is unconditional. Not decided: agreement of returned values with dynamicpb as executed comparisons; panic message texts.",
+		Engines:      E{refl.RunAcc, refl.RunPure},
+		RulePrefixes: []string{"ACC", "PURE", "G.model", "G.anchor", "GEN.build"},
+		Floors: []core.Floor{
+			{Rule: "ACC.arms", Min: 300, Why: "6 methods x message types"},
+			{Rule: "ACC.get", Min: 400, Why: "fields"},
+			{Rule: "ACC.set", Min: 400, Why: "fields"},
+			{Rule: "ACC.has", Min: 400, Why: "fields"},
+			{Rule: "ACC.mutable", Min: 400, Why: "fields"},
+			{Rule: "ACC.newfield", Min: 400, Why: "fields"},
+			{Rule: "ACC.range", Min: 400, Why: "fields + oneofs + totals"},
+			{Rule: "ACC.view", Min: 1000, Why: "view methods"},
+			{Rule: "ACC.whichoneof", Min: 60, Why: "message types + oneofs"},
+		},
+		Explanation: "ACC canonical forms; see level text.",
 	})
 }
